@@ -17,10 +17,7 @@ Lemma conc_get e r s : rget r (c_r (conc e s)) = cval e (rget r (s_r s)).
 Proof. unfold conc; cbn [c_r]. apply rget_rmap. Qed.
 Lemma conc_setr e r v s : conc e (s_setr r v s) = c_setr r (cval e v) (conc e s).
 Proof. unfold conc, s_setr, c_setr; cbn [s_r s_zf s_stk s_out c_r c_zf c_stk c_out]. now rewrite rmap_rset. Qed.
-Lemma conc_setzf_const e b s : conc e (s_setzf (FConst b) s) = c_setzf b (conc e s).
-Proof. reflexivity. Qed.
-Lemma conc_setzf_atom e f m v s :
-  conc e (s_setzf (FAtom f m v) s) = c_setzf (N.land (fieldv e f) m =? v) (conc e s).
+Lemma conc_setzf e z s : conc e (s_setzf z s) = c_setzf (ev e z =? 0) (conc e s).
 Proof. reflexivity. Qed.
 Lemma conc_setstk e k s : conc e (s_setstk k s) = c_setstk (map (cval e) k) (conc e s).
 Proof. reflexivity. Qed.
@@ -40,28 +37,60 @@ Proof. unfold fieldv. apply m32_idem. Qed.
 
 Lemma conc_leaf e a b c d s :
   conc e (s_leaf a b c d s) = c_leaf e a b c d (conc e s).
-Proof.
-  unfold s_leaf, c_leaf. rewrite !conc_setr. cbn [cval]. now rewrite !fieldv_ones.
-Qed.
+Proof. unfold s_leaf, c_leaf. now rewrite !conc_setr. Qed.
 
 (* ------------------------------------------------------------------ sexec is exact *)
+
+Lemma cfold_sound e x : forall n, cfold x = Some n -> ev e x = n.
+Proof.
+  induction x as [c|f|a IHa b IHb|a IHa b IHb|a IHa b IHb]; cbn [cfold ev]; intros n H;
+    try (injection H as <-; reflexivity); try discriminate;
+    destruct (cfold a) as [p|]; try discriminate; destruct (cfold b) as [q|]; try discriminate;
+    injection H as <-; now rewrite (IHa p eq_refl), (IHb q eq_refl).
+Qed.
+
+Lemma eval_mkNode e c a b : eval (mkNode c a b) e = if ev e c =? 0 then eval a e else eval b e.
+Proof.
+  unfold mkNode. destruct (cfold c) as [n|] eqn:E; [|reflexivity].
+  rewrite (cfold_sound e c n E). destruct (n =? 0); reflexivity.
+Qed.
 
 Lemma eval_on_flag e fl k :
   eval (on_flag fl k) e = match cflag e fl with Some z => eval (k z) e | None => None end.
 Proof.
-  destruct fl; cbn [on_flag cflag eval]; try reflexivity.
-  destruct (N.land (fieldv e f) m =? v); reflexivity.
+  destruct fl; cbn [on_flag cflag]; [reflexivity|]. rewrite eval_mkNode.
+  destruct (ev e x =? 0); reflexivity.
 Qed.
 
 Lemma eval_on_num e v n yes no :
   eval (on_num v n yes no) e =
   match cval e v with
-  | VNum x => if x =? n then eval yes e else eval no e
+  | VNum x => if N.lxor x n =? 0 then eval yes e else eval no e
   | _ => None
   end.
+Proof. destruct v; cbn [on_num cval]; try reflexivity. now rewrite eval_mkNode. Qed.
+
+Lemma arith1_sound e d f g fc gc s k kc :
+  (forall x, ev e (f x) = fc (ev e x)) -> (forall x, ev e (g x) = gc (ev e x)) ->
+  (forall s' nx, eval (k s' nx) e = kc (conc e s') nx) ->
+  eval (s_arith1 d f g s k) e =
+  match c_arith1 d fc gc (conc e s) with Some (c', nx) => kc c' nx | None => None end.
 Proof.
-  destruct v; cbn [on_num cval eval]; try reflexivity.
-  destruct (n0 =? n); reflexivity.
+  intros Hf Hg H. unfold s_arith1, c_arith1. rewrite conc_get.
+  destruct (rget d (s_r s)); cbn [cval eval]; try reflexivity.
+  rewrite H, conc_setzf, conc_setr. cbn [cval]. now rewrite Hf, Hg.
+Qed.
+
+Lemma arith2_sound e d r f g fc gc s k kc :
+  (forall x y, ev e (f x y) = fc (ev e x) (ev e y)) -> (forall x y, ev e (g x y) = gc (ev e x) (ev e y)) ->
+  (forall s' nx, eval (k s' nx) e = kc (conc e s') nx) ->
+  eval (s_arith2 d r f g s k) e =
+  match c_arith2 d r fc gc (conc e s) with Some (c', nx) => kc c' nx | None => None end.
+Proof.
+  intros Hf Hg H. unfold s_arith2, c_arith2. rewrite !conc_get.
+  destruct (rget d (s_r s)); cbn [cval eval]; try reflexivity;
+    destruct (rget r (s_r s)); cbn [cval eval]; try reflexivity.
+  rewrite H, conc_setzf, conc_setr. cbn [cval]. now rewrite Hf, Hg.
 Qed.
 
 Lemma sstep_sound self e i s k kc :
@@ -69,7 +98,9 @@ Lemma sstep_sound self e i s k kc :
   eval (sstep self i s k) e =
   match cstep self e i (conc e s) with Some (c', nx) => kc c' nx | None => None end.
 Proof.
-  intros H. destruct i; cbn [sstep cstep].
+  intros H. destruct i; cbn [sstep cstep];
+    try (apply arith1_sound; [intro; reflexivity|intro; reflexivity|exact H]);
+    try (apply arith2_sound; [intros; reflexivity|intros; reflexivity|exact H]).
   - (* Push *) rewrite H, conc_setstk, conc_get, conc_stk. reflexivity.
   - (* Pop *) rewrite conc_stk. destruct (s_stk s) as [|v tl]; cbn [map eval]; [reflexivity|].
     now rewrite H, conc_setr, conc_setstk.
@@ -77,32 +108,25 @@ Proof.
   - (* MovRR64 *) now rewrite H, conc_setr, conc_get.
   - (* MovRR32 *) rewrite H, conc_setr, conc_get. destruct (rget s0 (s_r s)); reflexivity.
   - (* MovRI *) now rewrite H, conc_setr.
-  - (* XorSelf *) now rewrite H, conc_setzf_const, conc_setr.
-  - (* AndRI *) rewrite conc_get. destruct (rget d (s_r s)); cbn [cval eval]; try reflexivity.
-    + now rewrite H, conc_setzf_const, conc_setr.
-    + rewrite H, conc_setzf_atom, conc_setr. cbn [cval]. now rewrite !N.land_assoc.
-  - (* TestRI *) rewrite conc_get. destruct (rget d (s_r s)); cbn [cval eval]; try reflexivity.
-    + now rewrite H, conc_setzf_const.
-    + rewrite H, conc_setzf_atom. now rewrite !N.land_assoc.
-  - (* CmpRI *) rewrite conc_get. destruct (rget d (s_r s)); cbn [cval eval]; try reflexivity.
-    + now rewrite H, conc_setzf_const.
-    + now rewrite H, conc_setzf_atom.
+  - (* XorSelf *) now rewrite H, conc_setzf, conc_setr.
+  - (* NotR *) rewrite conc_get. destruct (rget r (s_r s)); cbn [cval eval]; try reflexivity.
+    now rewrite H, conc_setr.
   - (* Jcc *) rewrite eval_on_flag, conc_zf. destruct (cflag e (s_zf s)); [|reflexivity]. apply H.
   - (* Jmp *) apply H.
   - (* Cmov *) rewrite eval_on_flag, conc_zf. destruct (cflag e (s_zf s)) as [z|]; [|reflexivity].
     rewrite H. destruct (holds c z); [|reflexivity]. now rewrite conc_setr, conc_get.
   - (* Cpuid *) rewrite eval_on_num, !conc_get.
     destruct (cval e (rget RAX (s_r s))) as [a| |] eqn:Ha; try reflexivity.
-    destruct (a =? 1); [now rewrite H, conc_leaf|].
+    destruct (N.lxor a 1 =? 0); [now rewrite H, conc_leaf|].
     rewrite eval_on_num, Ha.
-    destruct (a =? 7); [|reflexivity].
+    destruct (N.lxor a 7 =? 0); [|reflexivity].
     rewrite eval_on_num. destruct (cval e (rget RCX (s_r s))) as [c| |]; try reflexivity.
-    destruct (c =? 0); [|reflexivity]. now rewrite H, conc_leaf.
+    destruct (N.lxor c 0 =? 0); [|reflexivity]. now rewrite H, conc_leaf.
   - (* Xgetbv *) rewrite eval_on_num, conc_get.
     destruct (cval e (rget RCX (s_r s))) as [c| |]; try reflexivity.
-    destruct (c =? 0); [|reflexivity]. cbn [eval].
-    destruct (N.land (fieldv e L1C) OSXSAVE_BIT =? OSXSAVE_BIT); [|reflexivity].
-    rewrite H, !conc_setr. cbn [cval]. now rewrite !fieldv_ones.
+    destruct (N.lxor c 0 =? 0); [|reflexivity]. rewrite eval_mkNode. cbn [ev eval].
+    destruct (N.lxor (N.land (fieldv e L1C) OSXSAVE_BIT) OSXSAVE_BIT =? 0); [|reflexivity].
+    now rewrite H, !conc_setr.
   - (* Store *) destruct (String.eqb slot (slot_of self)); [|reflexivity].
     rewrite conc_get. destruct (rget r (s_r s)); cbn [cval eval]; try reflexivity.
     now rewrite H, conc_setout.
@@ -337,25 +361,98 @@ Proof.
   destruct (proj1 Hs f) as [A _]. exact (land_trans _ _ _ A H).
 Qed.
 
+(* ------------------------------------------------------------------ normal forms of tests *)
+
+Definition fo (e : env) (o : option field) : N := match o with Some f => fieldv e f | None => 0 end.
+Definition nf_ok (e : env) (n : nform) (val : N) : Prop :=
+  let '(o, m, x) := n in (o = None -> m = 0) /\ val = N.lxor (N.land (fo e o) m) x.
+
+Lemma nf_op_ok e op bop :
+  (forall a b i, N.testbit (op a b) i = bop (N.testbit a i) (N.testbit b i)) ->
+  forall p q r A B, nf_op op (Some p) (Some q) = Some r -> nf_ok e p A -> nf_ok e q B -> nf_ok e r (op A B).
+Proof.
+  intros Hop [[o1 m1] x1] [[o2 m2] x2] r A B H [N1 V1] [N2 V2]. cbn [nf_op] in H.
+  destruct (nf_join o1 o2) as [o|] eqn:J; [|discriminate]. injection H as <-. cbn [nf_ok].
+  (* both operands read with the joined field *)
+  assert (HA : A = N.lxor (N.land (fo e o) m1) x1 /\ B = N.lxor (N.land (fo e o) m2) x2 /\
+               (o = None -> m1 = 0 /\ m2 = 0)).
+  { destruct o1 as [f1|], o2 as [f2|]; cbn [nf_join] in J.
+    - destruct (field_eqb f1 f2) eqn:E; [|discriminate]. injection J as <-.
+      apply field_eqb_eq in E. subst f2.
+      split; [exact V1|split; [exact V2|intro Hn; discriminate Hn]].
+    - injection J as <-. rewrite (N2 eq_refl), N.land_0_r in V2.
+      split; [exact V1|split; [now rewrite (N2 eq_refl), N.land_0_r|intro Hn; discriminate Hn]].
+    - injection J as <-. rewrite (N1 eq_refl), N.land_0_r in V1.
+      split; [now rewrite (N1 eq_refl), N.land_0_r|split; [exact V2|intro Hn; discriminate Hn]].
+    - injection J as <-. split; [exact V1|split; [exact V2|]].
+      intros _. split; [now apply N1|now apply N2]. }
+  destruct HA as [EA [EB HN]]. split.
+  - intros ->. destruct (HN eq_refl) as [-> ->]. rewrite !N.lxor_0_l. apply N.lxor_nilpotent.
+  - rewrite EA, EB. apply N.bits_inj; intro i.
+    rewrite Hop, !N.lxor_spec, !N.land_spec, !N.lxor_spec, !Hop, !N.lxor_spec.
+    destruct (N.testbit (fo e o) i); cbn [andb]; rewrite ?xorb_false_l.
+    + destruct (bop (N.testbit x1 i) (N.testbit x2 i)),
+        (bop (xorb (N.testbit m1 i) (N.testbit x1 i)) (xorb (N.testbit m2 i) (N.testbit x2 i))); reflexivity.
+    + reflexivity.
+Qed.
+
+Lemma norm_sound e x : forall n, norm x = Some n -> nf_ok e n (ev e x).
+Proof.
+  induction x as [c|f|a IHa b IHb|a IHa b IHb|a IHa b IHb]; cbn [norm ev]; intros n H.
+  - injection H as <-. split; [reflexivity|]. now rewrite N.land_0_r, N.lxor_0_l.
+  - injection H as <-. split; [discriminate|]. cbn [fo]. now rewrite fieldv_ones, N.lxor_0_r.
+  - destruct (norm a) as [p|]; [|discriminate]. destruct (norm b) as [q|]; [|destruct p as [[? ?] ?]; discriminate].
+    exact (nf_op_ok e N.land andb N.land_spec p q n _ _ H (IHa p eq_refl) (IHb q eq_refl)).
+  - destruct (norm a) as [p|]; [|discriminate]. destruct (norm b) as [q|]; [|destruct p as [[? ?] ?]; discriminate].
+    exact (nf_op_ok e N.lor orb N.lor_spec p q n _ _ H (IHa p eq_refl) (IHb q eq_refl)).
+  - destruct (norm a) as [p|]; [|discriminate]. destruct (norm b) as [q|]; [|destruct p as [[? ?] ?]; discriminate].
+    exact (nf_op_ok e N.lxor xorb N.lxor_spec p q n _ _ H (IHa p eq_refl) (IHb q eq_refl)).
+Qed.
+
+Lemma lxor_eqb_0 a b : (N.lxor a b =? 0) = (a =? b).
+Proof.
+  destruct (a =? b) eqn:E.
+  - apply N.eqb_eq in E. subst. rewrite N.lxor_nilpotent. reflexivity.
+  - apply N.eqb_neq. intro H. apply N.lxor_eq in H. apply N.eqb_neq in E. contradiction.
+Qed.
+
+Lemma test_of_atom e c f m v : test_of c = TAtom f m v -> (ev e c =? 0) = atomv e f m v.
+Proof.
+  unfold test_of. destruct (norm c) as [[[o m'] x]|] eqn:E; [|discriminate].
+  destruct o as [g|]; [|discriminate]. intros H. injection H as -> -> ->.
+  destruct (norm_sound e c _ E) as [_ V]. rewrite V. cbn [fo]. unfold atomv. apply lxor_eqb_0.
+Qed.
+Lemma test_of_const e c b : test_of c = TConst b -> (ev e c =? 0) = b.
+Proof.
+  unfold test_of. destruct (norm c) as [[[o m'] x]|] eqn:E; [|discriminate].
+  destruct o as [g|]; [discriminate|]. intros H. injection H as <-.
+  destruct (norm_sound e c _ E) as [M V]. rewrite V, (M eq_refl), N.land_0_r, N.lxor_0_l. reflexivity.
+Qed.
+
 (* ------------------------------------------------------------------ the checker is sound *)
 
 Theorem check_sound requires t : forall k,
   check requires k t = true ->
   forall e, consistent e -> sat e k -> bound_okb requires e (eval t e) = true.
 Proof.
-  induction t as [r|f m v a IHa b IHb]; intros k Hc e Hcons Hs; cbn [check eval] in *.
+  induction t as [r|c a IHa b IHb]; intros k Hc e Hcons Hs; cbn [check eval] in *.
   - destruct r as [x|]; [|discriminate]. unfold leaf_ok in Hc. unfold bound_okb.
     destruct (requires x) as [l|]; [|discriminate].
     rewrite forallb_forall in *. intros ft Hin. apply (implied_sound e (close k)).
     + now apply close_sat.
     + now apply Hc.
-  - fold (atomv e f m v). destruct (decide k f m v) eqn:D.
-    + rewrite (decide_true e k f m v Hs D). now apply (IHa k).
-    + rewrite (decide_false e k f m v Hs D). now apply (IHb k).
+  - destruct (test_of c) as [f m v|[|]|] eqn:T.
+    + rewrite (test_of_atom e c f m v T). destruct (decide k f m v) eqn:D.
+      * rewrite (decide_true e k f m v Hs D). now apply (IHa k).
+      * rewrite (decide_false e k f m v Hs D). now apply (IHb k).
+      * apply andb_prop in Hc. destruct Hc as [Ha Hb].
+        destruct (atomv e f m v) eqn:At.
+        -- apply (IHa _ Ha e Hcons). now apply assume_true_sat.
+        -- apply (IHb _ Hb e Hcons). now apply assume_false_sat.
+    + rewrite (test_of_const e c true T). now apply (IHa k).
+    + rewrite (test_of_const e c false T). now apply (IHb k).
     + apply andb_prop in Hc. destruct Hc as [Ha Hb].
-      destruct (atomv e f m v) eqn:At.
-      * apply (IHa _ Ha e Hcons). now apply assume_true_sat.
-      * apply (IHb _ Hb e Hcons). now apply assume_false_sat.
+      destruct (ev e c =? 0); [now apply (IHa k)|now apply (IHb k)].
 Qed.
 
 Lemma sat_k_of_feats e l : forallb (availb e) l = true -> sat e (k_of_feats l).
@@ -394,27 +491,37 @@ Lemma agree2_sound e1 e2 r1 t2 : forall k,
   agree2 e1 e2 k r1 t2 = true -> forall e, sat e k ->
   fam_eqb (famo e1 r1) (famo e2 (eval t2 e)) = true.
 Proof.
-  induction t2 as [r|f m v a IHa b IHb]; intros k H e Hs; cbn [agree2 eval] in *; [exact H|].
-  fold (atomv e f m v). destruct (decide k f m v) eqn:D.
-  - rewrite (decide_true e k f m v Hs D). now apply (IHa k).
-  - rewrite (decide_false e k f m v Hs D). now apply (IHb k).
-  - apply andb_prop in H. destruct H as [Ha Hb]. destruct (atomv e f m v) eqn:At.
-    + apply (IHa _ Ha). now apply assume_true_sat.
-    + apply (IHb _ Hb). now apply assume_false_sat.
+  induction t2 as [r|c a IHa b IHb]; intros k H e Hs; cbn [agree2 eval] in *; [exact H|].
+  destruct (test_of c) as [f m v|[|]|] eqn:T.
+  - rewrite (test_of_atom e c f m v T). destruct (decide k f m v) eqn:D.
+    + rewrite (decide_true e k f m v Hs D). now apply (IHa k).
+    + rewrite (decide_false e k f m v Hs D). now apply (IHb k).
+    + apply andb_prop in H. destruct H as [Ha Hb]. destruct (atomv e f m v) eqn:At.
+      * apply (IHa _ Ha). now apply assume_true_sat.
+      * apply (IHb _ Hb). now apply assume_false_sat.
+  - rewrite (test_of_const e c true T). now apply (IHa k).
+  - rewrite (test_of_const e c false T). now apply (IHb k).
+  - apply andb_prop in H. destruct H as [Ha Hb].
+    destruct (ev e c =? 0); [now apply (IHa k)|now apply (IHb k)].
 Qed.
 
 Theorem agree_sound e1 e2 t1 t2 : forall k,
   agree e1 e2 k t1 t2 = true -> forall e, sat e k ->
   fam_eqb (famo e1 (eval t1 e)) (famo e2 (eval t2 e)) = true.
 Proof.
-  induction t1 as [r|f m v a IHa b IHb]; intros k H e Hs; cbn [agree eval] in *.
+  induction t1 as [r|c a IHa b IHb]; intros k H e Hs; cbn [agree eval] in *.
   - now apply (agree2_sound e1 e2 r t2 k).
-  - fold (atomv e f m v). destruct (decide k f m v) eqn:D.
-    + rewrite (decide_true e k f m v Hs D). now apply (IHa k).
-    + rewrite (decide_false e k f m v Hs D). now apply (IHb k).
-    + apply andb_prop in H. destruct H as [Ha Hb]. destruct (atomv e f m v) eqn:At.
-      * apply (IHa _ Ha). now apply assume_true_sat.
-      * apply (IHb _ Hb). now apply assume_false_sat.
+  - destruct (test_of c) as [f m v|[|]|] eqn:T.
+    + rewrite (test_of_atom e c f m v T). destruct (decide k f m v) eqn:D.
+      * rewrite (decide_true e k f m v Hs D). now apply (IHa k).
+      * rewrite (decide_false e k f m v Hs D). now apply (IHb k).
+      * apply andb_prop in H. destruct H as [Ha Hb]. destruct (atomv e f m v) eqn:At.
+        -- apply (IHa _ Ha). now apply assume_true_sat.
+        -- apply (IHb _ Hb). now apply assume_false_sat.
+    + rewrite (test_of_const e c true T). now apply (IHa k).
+    + rewrite (test_of_const e c false T). now apply (IHb k).
+    + apply andb_prop in H. destruct H as [Ha Hb].
+      destruct (ev e c =? 0); [now apply (IHa k)|now apply (IHb k)].
 Qed.
 
 Lemma list_eqb_eq a : forall b, list_eqb a b = true -> a = b.
